@@ -48,6 +48,11 @@ pub fn generate(rng: &mut Rng, thorough: bool) -> Hist {
     let mut ops = Vec::new();
     for i in 0..n {
         ops.push(Op::Write { w: 0, key: *rng.pick(keys), seq: i as u32 + 1, ts: i as i64 + 1 });
+        // unregister_instance keeps the instance's samples in the writer history: they still count
+        // towards max_samples / max_samples_per_instance when the writer is written to again
+        if rng.chance(0.25) {
+            ops.push(Op::Unreg { w: 0, key: *rng.pick(keys), ts: i as i64 + 1 });
+        }
     }
     Hist { cfg, ops }
 }
@@ -117,6 +122,21 @@ pub async fn scenario(w: World, h: Hist, trace: bool) -> Outcome {
     let mut verified = 0i64;
     for (oi, op) in h.ops.iter().enumerate() {
         out.ops_executed = oi + 1;
+        if let Op::Unreg { key, ts, .. } = op {
+            // result not judged (BadParameter when the instance is not registered); the model's
+            // stored samples are unchanged by it
+            let Ok(res) = sim.timeout(10 * SEC, dw.unregister_instance_w_timestamp(msg(*key, 0, 0, 0), None, ts_to_time(*ts))).await else {
+                out.inconclusive = Some(format!("unregister_instance #{oi} did not return within 10 s virtual"));
+                return out;
+            };
+            if trace {
+                out.trace.push(format!("#{oi} {} -> {}", op.encode(), match &res { Ok(_) => "Ok".to_string(), Err(e) => err_name(e) }));
+            }
+            out.stat(if res.is_ok() { "unregister_ok" } else { "unregister_refused" }, 1);
+            shape = vcore::mix(shape, vcore::fnv_str(&op.shape()));
+            settle_net(&w).await;
+            continue;
+        }
         let Op::Write { key, seq, ts, .. } = op else { continue };
         let total: usize = per.values().map(|v| v.len()).sum();
         let inst_len = per.get(key).map(|v| v.len()).unwrap_or(0);
